@@ -244,6 +244,18 @@ CLAIMED: dict[str, tuple[str, str, str, str, str]] = {
         "guard truth tables + must-call pairing on the CFG + sibling traversal + small-case abstract evaluation",
         "DESIGN §5 C06",
     ),
+    "C07": (
+        "other",
+        "Decides the write-back pairing clause: every call compiler adds the call operation and then reaches "
+        "_update_inout_ports with the same arguments on every normal path; _update_inout_ports, interpreted on all argument "
+        "lists up to length 3 over {not borrowed, borrowed place, borrowed subscripted place, borrowed non-place}, binds the "
+        "k-th borrowed input to the k-th extra port, compiles the __setitem__ write-back for subscripted places and leaves no "
+        "port over; the HUGR signature appends exactly the borrowed inputs to the outputs; subscript indices are compiled "
+        "once; comptime tracing writes borrowed values back. The value the caller observes at run time is not decided.",
+        "Trusted: ast parser, gsa/absint/pyeval.py; DFContainer's own bookkeeping (dfg[subscript] follows dfg[place]) is assumed.",
+        "must-call pairing on the CFG + abstract evaluation of the port assignment on all small cases",
+        "DESIGN §5 C07",
+    ),
 }
 
 NOT_APPLICABLE: dict[str, str] = {
